@@ -619,6 +619,19 @@ def gen_startup():
     for path in ("src/listeners/socks.rs", "src/listeners/reverse.rs", "src/listeners/tproxy.rs"):
         udp_sites += len(re.findall(r"set_idle_timeout\s*\(\s*state\s*\.\s*timeouts\s*\.\s*udp\s*\)", strip_rust(open(os.path.join(REPO, path)).read())))
     out += "Definition udp_sessions_take_the_udp_timeout : N := %d%%N.\n" % udp_sites
+    # UDP associations of the http and quic listeners (CONNECT + Proxy-Protocol: udp): the udp branch of the handshake sets the
+    # period it is given, and both listeners give it timeouts.udp
+    raw_h = open(os.path.join(REPO, "src/common/h11c.rs")).read()
+    m_udp = re.search(r'eq_ignore_ascii_case\(\s*"udp"\s*\)\s*\{', raw_h)
+    branch = block_after(raw_h[m_udp.start():], r'eq_ignore_ascii_case\(\s*"udp"\s*\)\s*\{') if m_udp else ""
+    sets = bool(re.search(r"\.\s*set_idle_timeout\s*\(\s*udp_timeout\s*\)", branch))
+    callers = 0
+    for path in ("src/listeners/http.rs", "src/listeners/quic.rs"):
+        t = strip_rust(open(os.path.join(REPO, path)).read())
+        if re.search(r"h11c_handshake\s*\(\s*ctx\s*,\s*queue(?:\s*\.\s*clone\s*\(\s*\))?\s*,\s*(?:state\s*\.\s*timeouts\s*\.\s*udp|udp_timeout)\s*,", t) and \
+                (re.search(r"h11c_handshake\s*\([^;]*state\s*\.\s*timeouts\s*\.\s*udp", t) or re.search(r"let\s+udp_timeout\s*=\s*state\s*\.\s*timeouts\s*\.\s*udp\s*;", t)):
+            callers += 1
+    out += "Definition connect_udp_sessions_take_the_udp_timeout : bool := %s.\n" % B(sets and callers == 2)
     return out
 
 
